@@ -176,7 +176,7 @@ var specs = map[string]*Spec{
 		Quick:    TierParams{Runs: 6000, Budget: 5 * time.Minute},
 		Thorough: TierParams{Budget: 12 * time.Minute},
 		Level:    "exploration",
-		Rule: "fault-free configuration of the filesystem simulator: one client, 1-3 directories (named d0,d1,d2, or so that one name is a prefix of another: d,d1,d12 / db,db.old,db2), file names a,b,a.tmp,c or, in a fifth of the plans, unusual legal ones (log..old, ..., "a b", -x, .hidden, x~), a plan of 1-40 calls (Create/Append/Close/Open/ReadAt/Delete/Link/AtomicCreate/List, plus one bulk creation of 110-190 names for List's refill loop) generated against the reference model so that every call respects the documented preconditions; names from {a,b,a.tmp,c}, data sizes 0..70000, offsets/lengths around the file size, aliasing probes (scribble on data after Append/AtomicCreate and on the slice returned by ReadAt). " +
+		Rule: "fault-free configuration of the filesystem simulator: one client, 1-3 directories (named d0,d1,d2, or so that one name is a prefix of another: d,d1,d12 / db,db.old,db2), file names a,b,a.tmp,c or, in a fifth of the plans, unusual legal ones (log..old, ..., a b, -x, .hidden, x~), a plan of 1-40 calls (Create/Append/Close/Open/ReadAt/Delete/Link/AtomicCreate/List, plus one bulk creation of 110-190 names for List's refill loop) generated against the reference model so that every call respects the documented preconditions; names from {a,b,a.tmp,c}, data sizes 0..70000, offsets/lengths around the file size, aliasing probes (scribble on data after Append/AtomicCreate and on the slice returned by ReadAt). " +
 			"The same plan runs on MemFs and on DirFs over the simulated kernel (ReadDirent limited to 1-3 entries per call in half of the runs, high descriptor numbers in a quarter), each directly and through the package-level wrappers, and every tenth plan on DirFs over the real Linux kernel; every result is compared with the model (descriptors up to renaming and required to be fresh, List as a set) and all files are re-read at the end. " +
 			"Non-trivial: some ReadAt returned data; distinct = distinct plans.",
 		Components:   machComponents,
